@@ -303,3 +303,108 @@ func refOneRune(s string) bool {
 	rs := []rune(s)
 	return len(rs) == 1 && rs[0] != 0xFFFD && len(string(rs[0])) == len(s)
 }
+
+// refSmallDecimal: 1..3 decimal digits (no sign): a small non-negative integer.
+func refSmallDecimal(s string) bool {
+	if len(s) == 0 || len(s) > 3 {
+		return false
+	}
+	for i := 0; i < len(s); i++ {
+		if s[i] < '0' || s[i] > '9' {
+			return false
+		}
+	}
+	return true
+}
+
+func refAtoiSmall(s string) int {
+	n := 0
+	for i := 0; i < len(s); i++ {
+		n = n*10 + int(s[i]-'0')
+	}
+	return n
+}
+
+// refItoa renders a non-negative int < 1000 in decimal (canonical, no padding).
+func refItoa(n int) string {
+	if n < 0 || n > 999 {
+		return "?"
+	}
+	if n >= 100 {
+		return string([]byte{byte('0' + n/100), byte('0' + n/10%10), byte('0' + n%10)})
+	}
+	if n >= 10 {
+		return string([]byte{byte('0' + n/10), byte('0' + n%10)})
+	}
+	return string([]byte{byte('0' + n)})
+}
+
+// refDigit: value of a digit character, or 99.
+func refDigit(c byte) uint64 {
+	switch {
+	case c >= '0' && c <= '9':
+		return uint64(c - '0')
+	case c >= 'a' && c <= 'z':
+		return uint64(c-'a') + 10
+	case c >= 'A' && c <= 'Z':
+		return uint64(c-'A') + 10
+	}
+	return 99
+}
+
+// refInt: does s denote an integer in base `base` (2..36) that fits a signed /
+// unsigned type of `bits` bits? Signed kinds accept one leading '+' or '-';
+// unsigned kinds accept no sign. Returns the sign and magnitude.
+func refInt(s string, base, bits int, signed bool) (neg bool, mag uint64, ok bool) {
+	i := 0
+	if signed && len(s) > 0 && (s[0] == '+' || s[0] == '-') {
+		neg = s[0] == '-'
+		i = 1
+	}
+	if i >= len(s) {
+		return false, 0, false
+	}
+	const maxU = ^uint64(0)
+	b := uint64(base)
+	for ; i < len(s); i++ {
+		d := refDigit(s[i])
+		if d >= b {
+			return false, 0, false
+		}
+		// overflow of the 64-bit accumulator means out of range for every kind
+		if mag > maxU/b {
+			return false, 0, false
+		}
+		mag *= b
+		if mag > maxU-d {
+			return false, 0, false
+		}
+		mag += d
+	}
+	var limit uint64
+	switch {
+	case !signed && bits == 64:
+		limit = maxU
+	case !signed:
+		limit = uint64(1)<<uint(bits) - 1
+	case neg:
+		limit = uint64(1) << uint(bits-1)
+	default:
+		limit = uint64(1)<<uint(bits-1) - 1
+	}
+	if mag > limit {
+		return false, 0, false
+	}
+	return neg, mag, true
+}
+
+// refBool: the spellings strconv documents for booleans.
+func refBool(s string) (val, ok bool) {
+	switch s {
+	case "1", "t", "T", "TRUE", "true", "True":
+		return true, true
+	case "0", "f", "F", "FALSE", "false", "False":
+		return false, true
+	}
+	return false, false
+}
